@@ -398,6 +398,71 @@ MUTEX output_mutex;
 
 MODULE_DATA* modules_data_list = NULL;
 
+#ifdef YARA_VERIF
+// H4: event log of the file queue and scanning threads, and schedule jitter.
+// YARA_VERIF_TRACE=<file> enables the log, YARA_VERIF_JITTER=<seed> the jitter.
+#include <fcntl.h>
+#include <stdarg.h>
+#include <sys/syscall.h>
+
+static int verif_trace_fd = -2;
+static int verif_jitter_on = -1;
+static __thread unsigned int verif_jitter_state = 0;
+
+static void verif_trace(const char* fmt, ...)
+{
+  char buf[YR_MAX_PATH + 128];
+  va_list ap;
+  int n;
+
+  if (verif_trace_fd == -2)
+  {
+    const char* path = getenv("YARA_VERIF_TRACE");
+    verif_trace_fd =
+        path ? open(path, O_WRONLY | O_CREAT | O_APPEND, 0644) : -1;
+  }
+
+  if (verif_trace_fd < 0)
+    return;
+
+  va_start(ap, fmt);
+  n = vsnprintf(buf, sizeof(buf) - 1, fmt, ap);
+  va_end(ap);
+
+  if (n < 0)
+    return;
+
+  if (n > (int) sizeof(buf) - 2)
+    n = sizeof(buf) - 2;
+
+  buf[n++] = '\n';
+
+  if (write(verif_trace_fd, buf, n) < 0)
+    return;
+}
+
+static void verif_jitter()
+{
+  if (verif_jitter_on == -1)
+    verif_jitter_on = getenv("YARA_VERIF_JITTER") != NULL;
+
+  if (!verif_jitter_on)
+    return;
+
+  if (verif_jitter_state == 0)
+    verif_jitter_state = (unsigned int) atoi(getenv("YARA_VERIF_JITTER")) *
+                             2654435761u +
+                         (unsigned int) syscall(SYS_gettid) * 40503u + 1;
+
+  verif_jitter_state = verif_jitter_state * 1103515245u + 12345u;
+
+  if ((verif_jitter_state >> 16) % 4 == 0)
+    usleep((verif_jitter_state >> 18) % 300);
+}
+
+#define VERIF_TID ((long) syscall(SYS_gettid))
+#endif
+
 static int file_queue_init()
 {
   int result;
@@ -427,6 +492,9 @@ static void file_queue_destroy()
 
 static void file_queue_finish()
 {
+#ifdef YARA_VERIF
+  verif_trace("FINISH");
+#endif
   for (int i = 0; i < YR_MAX_THREADS; i++) cli_semaphore_release(&used_slots);
 }
 
@@ -440,8 +508,16 @@ static int file_queue_put(const char_t* file_path, time_t deadline)
   file_queue[queue_tail].path = _tcsdup(file_path);
   queue_tail = (queue_tail + 1) % (MAX_QUEUED_FILES + 1);
 
+#ifdef YARA_VERIF
+  verif_trace("PUT %s", file_path);
+#endif
+
   cli_mutex_unlock(&queue_mutex);
   cli_semaphore_release(&used_slots);
+
+#ifdef YARA_VERIF
+  verif_jitter();
+#endif
 
   return ERROR_SUCCESS;
 }
@@ -465,8 +541,16 @@ static char_t* file_queue_get(time_t deadline)
     queue_head = (queue_head + 1) % (MAX_QUEUED_FILES + 1);
   }
 
+#ifdef YARA_VERIF
+  verif_trace("GET %ld %s", VERIF_TID, result ? result : "<NULL>");
+#endif
+
   cli_mutex_unlock(&queue_mutex);
   cli_semaphore_release(&unused_slots);
+
+#ifdef YARA_VERIF
+  verif_jitter();
+#endif
 
   return result;
 }
@@ -1312,7 +1396,15 @@ static void* scanning_thread(void* param)
       yr_scanner_set_timeout(
           args->scanner, (int) (args->deadline - current_time));
 
+#ifdef YARA_VERIF
+      verif_trace("SCAN_BEGIN %ld %s", VERIF_TID, file_path);
+#endif
+
       result = scan_file(args->scanner, file_path);
+
+#ifdef YARA_VERIF
+      verif_trace("SCAN_END %ld %d %s", VERIF_TID, result, file_path);
+#endif
 
       if (print_count_only)
       {
